@@ -39,7 +39,7 @@ claim('C16',
       'Trusted: python ast, E1 type inference, E3c ownership summaries (k-limited paths).')
 
 claim('C13',
-      'exception-escape analysis over the call graph from Builder.build (implicit raisers and explicit built-in '
+      'finite-scenario interpretation of the package syntax trees by the checker own evaluator (E7) of the single-instance gate and of factories for dispatch facts, inside the exception-escape analysis over the call graph from Builder.build (implicit raisers and explicit built-in '
       'raises as obligations; discharge by path facts, class invariants, constructor-site correlation, call-site '
       'evaluation of validator preconditions, enumerated exhaustive branch chains, reasoned entries re-verified per '
       'run) + termination-shape rules + structural rules on the result list and the rejection guards, over python ast',
@@ -55,7 +55,7 @@ claim('C13',
       'identifiers are non-empty) is stated in the evidence. RecursionError from input depth is out of reach.')
 
 claim('C15',
-      'typestate analysis of decoded JSON values (unchecked until a dominating isinstance) + exception-escape '
+      'finite-scenario interpretation of the package syntax trees by the checker own evaluator (E7) of parse_event over all out-event shapes, with the dominance rule as fallback; typestate analysis of decoded JSON values (unchecked until a dominating isinstance) + exception-escape '
       'analysis from process()/parse_* + dominance rules on the out-event rejections and the identifier path, over '
       'python ast',
       'Static rule set: in json_ast.py no operation that can fail is applied to a JSON value before a dominating '
@@ -69,7 +69,7 @@ claim('C15',
       'only dict/list/str/int/float/bool/None with str keys. RecursionError on ~500 nested namespaces is out of reach.')
 
 claim('C17',
-      'provenance judgement on every write to the TextBlock line buffer (clean-line-list abstract property), '
+      'finite-scenario interpretation of the package syntax trees by the checker own evaluator (E7) of TextBlock.__str__ on blocks of zero to three lines, with the shape rule as fallback; provenance judgement on every write to the TextBlock line buffer (clean-line-list abstract property), '
       'ownership analysis for buffer aliasing, shape rules on __str__ and flatten_to_strlist, over python ast',
       'Static rule set for the invariant part of the property: every string entering a block\'s buffer comes from '
       'str.splitlines() without keepends, the guarded empty string, another block\'s lines or a per-line map / '
@@ -82,7 +82,7 @@ claim('C17',
       'pass line-break-free strings and that bullet glyphs contain no line break.')
 
 claim('C18',
-      'sibling rule to_str/to_list (join-shape recognition), termination-shape analysis, cardinality judgement on the '
+      'finite-scenario interpretation of the package syntax trees by the checker own evaluator (E7) of Indentizer.to_list / to_str over indentor x bullet mode x glyph width x line sequences up to length two plus longer witnesses, with the shape rules as fallback; sibling rule to_str/to_list (join-shape recognition), termination-shape analysis, cardinality judgement on the '
       'result expressions of to_list, guard rules on prefixing expressions, write-set rule for indent(), over python ast',
       'Static rule set: Indentizer.to_str is EOL.join(self.to_list(arg)) + EOL (the two forms agree by construction); '
       'no unconditional self-recursion in the text layer; every result of to_list is an order- and length-preserving '
@@ -94,7 +94,7 @@ claim('C18',
       'Trusted: python ast, E1/E2, the recognised expression shapes; an unrecognised shape is an ANALYSIS-ERROR.')
 
 claim('C14',
-      'cross-table agreement (scanned containers vs FileContents declaration fields vs valid_types), structural rules '
+      'finite-scenario interpretation of the package syntax trees by the checker own evaluator (E7) of find_fqn / find_any on a small universe of declarations and of the identifier validation, with the shape rules as fallback; cross-table agreement (scanned containers vs FileContents declaration fields vs valid_types), structural rules '
       'on the lookup loops, regex language inclusion via re._parser, who-may-write analysis on NamespaceIds.items '
       '(E3c), separator table agreement, over python ast',
       'Static rule set for the structural part: find_fqn/find_any scan exactly the declaration containers (never '
@@ -109,7 +109,7 @@ claim('C14',
       'mutates its own list after handing it to NamespaceIds is outside the library\'s control (observation O3).')
 
 claim('C03',
-      'structural rules over python ast with path facts: guarded-lookup rule on every read of the match result, '
+      'finite-scenario interpretation of the package syntax trees by the checker own evaluator (E7) of PortsSemanticsCfg.match / PortsSemanticsCfg / PortsCfg over all selections of a three-name universe, with the shape rules as fallback; structural rules over python ast with path facts: guarded-lookup rule on every read of the match result, '
       'ordering and provenance rules on the if/elif chain of match(), dominance of the unknown-name rejection, '
       'argument-provenance rules for the per-side name sets and the per-port lookup, raise classification',
       'Static rule set: a port that no selection covers cannot pass silently or die with KeyError (every read of the '
@@ -125,7 +125,7 @@ claim('C03',
       'operations they apply (equality of the selections, intersection/overlap, is_wildcard_all/is_not_empty).')
 
 claim('C07',
-      'call-site enumeration with argument provenance over python ast (alias normalisation, loop-binder tracking), '
+      'finite-scenario interpretation of the package syntax trees by the checker own evaluator (E7) of FindResult.get_single_instance over every result shape (single-instance gate), with the typestate rule as fallback; call-site enumeration with argument provenance over python ast (alias normalisation, loop-binder tracking), '
       'typestate rule on FindResult, kind-hint agreement, written-name-is-lookup-key-only rule',
       'Static rule set for the generator\'s lookup discipline: every written name (port type, formal type, claim reply '
       'type, encapsulee) is resolved with find_fqn from the referring scope the Dezyne rules prescribe (never suffix '
@@ -138,7 +138,7 @@ claim('C07',
       'declaring interface scope (Dezyne scoping rules).')
 
 claim('C05',
-      'cross-table agreement over python ast: <class> dispatch vs assert_class literal vs return type vs container '
+      'finite-scenario interpretation of the package syntax trees by the checker own evaluator (E7) of DznJsonAst.process() on a scenario document with the leaf parsers replaced by their contract (traversal: dispatch, namespaces, siblings), shape rules on the constant-folded residual as fallback; cross-table agreement over python ast: <class> dispatch vs assert_class literal vs return type vs container '
       'element type; field-set and JSON-key provenance per constructor against the Dezyne schema table; cardinality '
       'judgement on list-valued fields; decoder totality/injectivity',
       'Static rule set: per dispatch branch the tested <class> literal, the class the called parse function asserts, '
@@ -253,7 +253,7 @@ claim('C11',
       'unique_lock / unique_ptr, /verif/cxx/mock.')
 
 claim('C19',
-      'structural rules on the comment machinery over python ast (glyph/mode of the installed indentizer, per-line map '
+      'finite-scenario interpretation of the package syntax trees by the checker own evaluator (E7) of the ALL-mode indenter (every output line starts with the glyph or is blank), with the shape rule as fallback; structural rules on the comment machinery over python ast (glyph/mode of the installed indentizer, per-line map '
       'of the ALL branch, line splitting in TextBlock.append), ownership analysis of Comment.__str__, and a taint walk '
       'over the E4 templates of the shell header/source and the support-file frame',
       'Static rule set: cpp_gen.Comment unconditionally installs a `//` bullet indentizer in mode ALL; the ALL branch of '
@@ -286,3 +286,11 @@ for _n in range(1, 21):
     _p = f'C{_n:02d}'
     if _p not in CLAIMED:
         na(_p, _pending)
+
+_E7_NOTE = (' Where a rule is decided by E7 (the checker interprets the syntax trees of the named functions itself - nothing of /repo '
+            'is imported or executed - over a small universe of opaque names, enum members and a few constants), the verdict is '
+            'exact for that universe and carries over to all inputs by a data-independence argument stated per rule in DESIGN.md '
+            'section 2 (E7): the interpreted code only compares, stores and concatenates the values it is given. It is a bounded '
+            'decision, not a proof; a construct the evaluator does not model makes the rule fall back to its shape form.')
+for _p in ('C03', 'C05', 'C07', 'C13', 'C14', 'C15', 'C17', 'C18', 'C19'):
+    CLAIMED[_p]['note'] += _E7_NOTE
